@@ -328,6 +328,9 @@ def load_model(model_folder: str, model_name: str, compiler_options: Dict[str, s
                 raise InvalidCacheError("Cache generated for incompatible CasADi version")
             else:
                 raise
+        except (EOFError, pickle.UnpicklingError):
+            # Empty, truncated or partially written cache file
+            raise InvalidCacheError("Cache file is incomplete")
 
         if db["version"] != __version__:
             raise InvalidCacheError("Cache generated for a different version of pymoca")
